@@ -405,7 +405,7 @@ def run_case(case):
         try:
             if "scenario" in case:
                 spec, phases, cfg0 = SCENARIOS[case["scenario"]]()
-                reps = 30
+                reps = 50
             else:
                 spec = gen.gen_project(rng, prob={"res": 0.2})
                 phases = gen.gen_history(rng, spec, nphase=rng.randint(0, 2))
